@@ -1,6 +1,79 @@
+import Model.Policies
 import Driver.Util
 namespace Driver.C11
-/-- placeholder: replaced when the property's model is built -/
-def step (_ : Unit) (_ : List String) : Unit × String := ((), "unimplemented")
-def init : Unit := ()
+open Policies
+
+/-- driver state: the policy under test (a bare round-robin based policy is `ta = false`),
+the host objects defined so far and the ids of the objects whose state is DOWN -/
+structure St where
+  isTA : Bool
+  t : TA
+  hosts : List Host
+  down : List Nat
+
+def init : St := ⟨false, TA.new (Pol.new .rr 0 0) false false false, [], []⟩
+
+def nat (s : String) : Nat := s.toNat?.getD 0
+def natList (s : String) : List Nat := if s == "-" then [] else (s.splitOn ",").map nat
+def showIds (l : List Host) : String := if l.isEmpty then "-" else ",".intercalate (l.map (fun h => toString h.id))
+
+def St.host? (s : St) (id : Nat) : Option Host := s.hosts.find? (fun h => h.id == id)
+def St.up (s : St) : Nat → Bool := fun id => !s.down.contains id
+
+def snapshot (s : St) : String :=
+  let p := s.t.pol
+  "L0=" ++ showIds p.l0 ++ " L1=" ++ showIds p.l1 ++ " L2=" ++ showIds p.l2 ++
+    (if s.isTA then " T=" ++ showIds s.t.hosts else "")
+
+/-- apply permutation `perm` (indices) to `l`; identity if it does not fit -/
+def applyPerm (perms : List (List Nat)) (l : List Host) : List Host :=
+  match perms.find? (fun p => p.length == l.length) with
+  | some p => if p.all (· < l.length) then p.map (fun i => l.getD i default) else l
+  | none => l
+
+def parseTable (s : St) (ws : List String) : List (Nat × List Host) :=
+  ws.map (fun w => match w.splitOn ":" with
+    | [t, ids] => (nat t, (natList ids).filterMap s.host?)
+    | _ => (0, []))
+
+/-- ops
+  reset <rr|dc|rack> <ta 0|1> <localDC> <localRack> <shuffle> <nonlocal> <partitionerSet>
+  host <id> <addr> <dc> <rack> <tokens|->          define a HostInfo object (state UP)
+  add|remove|hup|hdown <id>                        AddHost / RemoveHost / HostUp / HostDown → snapshot of the lists
+  state <id> <1|0>                                 setState(NodeUp|NodeDown)
+  repl <ks> <tok>:<ids> ...                        install the replica table of a keyspace
+  pick <ks|-> <tok|-> <limit> <perm;perm;...|->    Pick + up to <limit> iterator calls → ids offered -/
+def step (s : St) (ws : List String) : St × String :=
+  match ws with
+  | ["reset", k, ta, ldc, lrack, sh, nl, ps] =>
+    let kind := if k == "rr" then Kind.rr else if k == "dc" then Kind.dc else Kind.rack
+    ({ isTA := ta == "1", t := TA.new (Pol.new kind (nat ldc) (nat lrack)) (sh == "1") (nl == "1") (ta == "1" && ps == "1"),
+       hosts := [], down := [] }, "ok")
+  | ["host", id, addr, dc, rack, toks] =>
+    ({ s with hosts := ⟨nat id, nat addr, nat dc, nat rack, natList toks⟩ :: s.hosts.filter (fun h => h.id != nat id) }, "ok")
+  | ["race", _] => (s, "ok")   -- thorough tier: concurrent run on the real code (no panic, no nil host); nothing to model
+  | [op, id] =>
+    match s.host? (nat id) with
+    | none => (s, "bad-op")
+    | some h =>
+      let t' := if op == "add" then (if s.isTA then s.t.add h else { s.t with pol := s.t.pol.add h })
+        else if op == "remove" then (if s.isTA then s.t.remove h else { s.t with pol := s.t.pol.remove h })
+        else if op == "hup" then s.t.hostUp h
+        else if op == "hdown" then s.t.hostDown h
+        else s.t
+      let s' := { s with t := t' }
+      (s', snapshot s')
+  | ["state", id, v] =>
+    ({ s with down := if v == "1" then s.down.filter (· != nat id) else nat id :: s.down.filter (· != nat id) }, "ok")
+  | "repl" :: ks :: tab =>
+    ({ s with t := s.t.setReplicas (nat ks) (parseTable s tab) }, "ok")
+  | ["pick", ks, tok, limit, perms] =>
+    let rk := if tok == "-" || ks == "-" then none else some (nat ks, nat tok)
+    let ps := if perms == "-" then [] else (perms.splitOn ";").map natList
+    let (t', r) := s.t.pick s.up (applyPerm ps) rk (nat limit)
+    ({ s with t := t' }, match r with
+      | .seq l => showIds l
+      | .crash => "crash:nil-host-dereference")
+  | _ => (s, "bad-op")
+
 end Driver.C11
